@@ -75,3 +75,14 @@ for _cc in ("eq", "ge", "gt", "le", "lt", "ne"):
 def arity(op):
     out, ins = ISA[op]
     return (1 if out else 0) + len(ins)
+
+
+# Operand ROLES of the memory / device access instructions, in operand order (without the output register).
+# From the in-game instruction reference ("put d? address value", "ss d? slotIndex logicSlotType r?", ...); the reference
+# machine (spec/ic10_machine.py) reads operands in exactly this order.
+ROLES = {
+    "put": ("dev", "addr", "val"), "putd": ("id", "addr", "val"), "poke": ("addr", "val"), "get": ("dev", "addr"), "getd": ("id", "addr"),
+    "l": ("dev", "lt"), "s": ("dev", "lt", "val"), "ls": ("dev", "slot", "lst"), "ss": ("dev", "slot", "lst", "val"),
+    "lb": ("hash", "lt", "bm"), "lbn": ("hash", "namehash", "lt", "bm"), "lbs": ("hash", "slot", "lst", "bm"), "lbns": ("hash", "namehash", "slot", "lst", "bm"),
+    "sb": ("hash", "lt", "val"), "sbn": ("hash", "namehash", "lt", "val"), "sbs": ("hash", "slot", "lst", "val"),
+}
